@@ -178,56 +178,42 @@ Definition p_files_min_version (files : list N) : N :=
   | v :: r => fold_left N.min r v
   end.
 
-(* content items of parent_a tagged with their original position (None: imported from b) *)
-Definition tagged := list (option N * (htree + cdata)).
+Fixpoint lookup_merge (i : id) (l : list (id * id)) : option id :=
+  match l with [] => None | (a, b) :: r => if a =? i then Some b else lookup_merge i r end.
 
-Fixpoint tag_from (i : N) (l : list (htree + cdata)) : tagged :=
-  match l with [] => [] | it :: r => (Some i, it) :: tag_from (i + 1) r end.
+(* elements_a_only: an empty membership becomes `files` *)
+Definition h_restrict (files : list N) (c : htree) : htree :=
+  match c with HNode n t a cc cm loc => if is_empty loc then HNode n t a cc cm files else c end.
+(* merge_sub_elements: a merged element with an explicit membership is now also in the new file *)
+Definition h_bump (new_file : N) (c : htree) : htree :=
+  if negb (is_empty (h_local c)) then h_set_local c (set_add new_file (h_local c)) else c.
+(* import_new_items: the element is only in the new file *)
+Definition h_import (new_file : N) (c : htree) : htree :=
+  match c with HNode n t a cc cm loc => HNode n t a cc cm (set_add new_file loc) end.
 
-Definition restrict_tagged (a_only : list id) (files : list N) (l : tagged) : tagged :=
-  map (fun p => match p with
-                | (Some i, inl c) =>
-                  if existsb (N.eqb i) a_only then
-                    (Some i, inl (match c with HNode n t a cc cm loc => if is_empty loc then HNode n t a cc cm files else c end))
-                  else p
-                | _ => p
-                end) l.
-
+(* import_new_items on the content list *)
 Fixpoint p_import (ty : N * N) (b_content : list (htree + cdata)) (l : list (id * N)) (idx : N) (new_file min_ver_b : N)
-         (cur : tagged) : res (out tagged) :=
+         (cur : list (htree + cdata)) : res (out (list (htree + cdata))) :=
   match l with
   | [] => Val (OK cur)
   | (bid, insert_pos) :: r =>
     match nth_opt b_content (N.to_nat bid) with
     | Some (inl nb) =>
-      (let* range := p_insert_range ty (map snd cur) (h_name nb) min_ver_b in
+      (let* range := p_insert_range ty cur (h_name nb) min_ver_b in
        match range with
        | ER _ => Val (ER InvalidFileMerge)
        | OK (first_pos, last_pos) =>
          let dest := N.min (N.max (insert_pos + idx) first_pos) last_pos in
          if N.of_nat (List.length cur) <? dest then Pan "Vec::insert: index > len"
-         else
-           let nb' := match nb with HNode n t a c cm loc => HNode n t a c cm (set_add new_file loc) end in
-           p_import ty b_content r (idx + 1) new_file min_ver_b (insert_at cur (N.to_nat dest) (None, inl nb'))
+         else p_import ty b_content r (idx + 1) new_file min_ver_b (insert_at cur (N.to_nat dest) (inl (h_import new_file nb)))
        end)%res
     | _ => Pan "pmerge: b id does not denote an element"
     end
   end.
 
-Fixpoint replace_tag (i : N) (c' : htree) (l : tagged) : tagged :=
-  match l with
-  | [] => []
-  | (Some j, inl c) :: r => if j =? i then (Some j, inl c') :: r else (Some j, inl c) :: replace_tag i c' r
-  | p :: r => p :: replace_tag i c' r
-  end.
-
-Fixpoint find_tag (i : N) (l : tagged) : option htree :=
-  match l with
-  | [] => None
-  | (Some j, inl c) :: r => if j =? i then Some c else find_tag i r
-  | _ :: r => find_tag i r
-  end.
-
+(* the heap algorithm restricts the a-only elements, imports the b-only ones and then merges the pairs; the three steps
+   touch different sub-elements (and every error is InvalidFileMerge), so the pure version first maps the sub-elements
+   of a (restricted / merged with the partner / unchanged) and then inserts the imported ones *)
 Fixpoint pmerge (fuel : nat) (a : htree) (files : list N) (b : htree) (new_file : N) {struct fuel} : res (out htree) :=
   match fuel with
   | O => Fuel
@@ -244,32 +230,41 @@ Fixpoint pmerge (fuel : nat) (a : htree) (files : list N) (b : htree) (new_file 
      match wko with
      | ER e => Val (ER e)
      | OK wk =>
-       let c1 := restrict_tagged (wk_a_only wk) files (tag_from 0 (h_content a)) in
-       let* c2o := p_import pty (h_content b) (wk_b_only wk) 0 new_file min_ver_b c1 in
-       match c2o with
+       let* c1o :=
+         (fix kids (i : N) (l : list (htree + cdata)) {struct l} : res (out (list (htree + cdata))) :=
+            match l with
+            | [] => Val (OK [])
+            | inr d :: r =>
+              let* ro := kids (i + 1) r in
+              match ro with OK rr => Val (OK (inr d :: rr)) | ER e => Val (ER e) end
+            | inl c :: r =>
+              let* co :=
+                (if existsb (N.eqb i) (wk_a_only wk) then Val (OK (h_restrict files c))
+                 else match lookup_merge i (wk_merge wk) with
+                      | Some ib =>
+                        match nth_opt (h_content b) (N.to_nat ib) with
+                        | Some (inl eb) =>
+                          let files' := if negb (is_empty (h_local c)) then h_local c else files in
+                          let* mo := pmerge fl c files' eb new_file in
+                          match mo with OK ea' => Val (OK (h_bump new_file ea')) | ER e => Val (ER e) end
+                        | _ => Pan "pmerge: merge pair does not denote an element of b"
+                        end
+                      | None => Val (OK c)
+                      end) in
+              match co with
+              | ER e => Val (ER e)
+              | OK c' =>
+                let* ro := kids (i + 1) r in
+                match ro with OK rr => Val (OK (inl c' :: rr)) | ER e => Val (ER e) end
+              end
+            end) 0 (h_content a) in
+       match c1o with
        | ER e => Val (ER e)
-       | OK c2 =>
-         let* c3o :=
-           (fix subs (l : list (id * id)) (cur : tagged) : res (out tagged) :=
-              match l with
-              | [] => Val (OK cur)
-              | (ia, ib) :: r =>
-                match find_tag ia cur, nth_opt (h_content b) (N.to_nat ib) with
-                | Some ea, Some (inl eb) =>
-                  let files' := if negb (is_empty (h_local ea)) then h_local ea else files in
-                  let* mo := pmerge fl ea files' eb new_file in
-                  match mo with
-                  | ER e => Val (ER e)
-                  | OK ea' =>
-                    let ea'' := if negb (is_empty (h_local ea')) then h_set_local ea' (set_add new_file (h_local ea')) else ea' in
-                    subs r (replace_tag ia ea'' cur)
-                  end
-                | _, _ => Pan "pmerge: merge pair does not denote two elements"
-                end
-              end) (wk_merge wk) c2 in
-         match c3o with
+       | OK c1 =>
+         let* c2o := p_import pty (h_content b) (wk_b_only wk) 0 new_file min_ver_b c1 in
+         match c2o with
          | ER e => Val (ER e)
-         | OK c3 => Val (OK (h_set_content a (map snd c3)))
+         | OK c2 => Val (OK (h_set_content a c2))
          end
        end
      end)%res
